@@ -5,4 +5,6 @@ func Register(m map[string]func(*Ctx)) {
 	m["C01"] = RunC01
 	m["C02"] = RunC02
 	m["C14"] = RunC14
+	m["C03"] = RunC03
+	m["C11"] = RunC11
 }
